@@ -622,7 +622,7 @@ _reg_cache("cache-slru", lambda s: _policies().SLRUEviction(protected_ratio=0.6)
 _reg_cache("cache-sampled-lru", lambda s: _policies().SampledLRUEviction(sample_size=3, seed=s))
 _reg_cache("cache-clock", lambda s: _policies().ClockEviction())
 _reg_cache("cache-2q", lambda s: _policies().TwoQueueEviction(kin_ratio=0.4))
-_reg_cache("cache-ttl", lambda s: _policies().TTLEviction(ttl=0.05))
+_reg_cache("cache-ttl", lambda s: _policies().TTLEviction(ttl=2.0))
 _reg_cache("cache-writeback-lru", lambda s: _policies().LRUEviction(), write_back=True, capacity=8)
 
 
@@ -1236,3 +1236,152 @@ def m_preconstructed(seed):
     for e in pre:
         sim.schedule(e)
     return Model(sim, [src, relay, sink])
+
+
+# ===========================================================================
+# 14. further families: infrastructure, scheduling, behaviour, microservice
+# ===========================================================================
+@model("infrastructure")
+def m_infrastructure(seed):
+    from happysimulator import (HDD, AIMD, CPUScheduler, Cubic, DiskIO, DNSRecord, DNSResolver, FairShare,
+                                GarbageCollector, GenerationalGC, PageCache, PriorityPreemptive, TCPConnection)
+    cpu = CPUScheduler("cpu", policy=PriorityPreemptive(quantum_s=0.005))
+    cpu2 = CPUScheduler("cpu-fair", policy=FairShare(quantum_s=0.005))
+    disk = DiskIO("hdd", profile=HDD())
+    dns = DNSResolver("dns", cache_capacity=3,
+                      records={f"svc-{i}.example.com": DNSRecord(hostname=f"svc-{i}.example.com",
+                                                                 ip_address=f"10.0.0.{i}", ttl_s=0.2) for i in range(6)})
+    gc = GarbageCollector("gc", strategy=GenerationalGC(minor_interval_s=0.1), heap_pressure=0.8)
+    pc = PageCache("pagecache", capacity_pages=8, readahead_pages=2)
+    tcp = [TCPConnection("tcp-aimd", congestion_control=AIMD(), base_rtt_s=0.01, loss_rate=0.05,
+                         retransmit_timeout_s=0.05),
+           TCPConnection("tcp-cubic", congestion_control=Cubic(), base_rtt_s=0.01, loss_rate=0.05,
+                         retransmit_timeout_s=0.05)]
+    r = random.Random(seed)
+
+    def work(self, event):
+        i = self.calls
+        yield from dns.resolve(f"svc-{r.randrange(6)}.example.com")
+        yield from (cpu if i % 2 else cpu2).execute(f"task-{i}", 0.004 + 0.002 * (i % 3), priority=i % 3)
+        yield from pc.read_page(r.randrange(20))
+        if i % 3 == 0:
+            yield from pc.write_page(r.randrange(20))
+            yield from disk.write(8192)
+        else:
+            yield from disk.read(4096)
+        yield from gc.pause()
+        yield from tcp[i % 2].send(20_000)
+
+    worker = Script("worker", work)
+    src = Source.poisson(rate=40.0, target=worker, event_type="job", stop_after=0.6, name="src")
+    ents = [worker, cpu, cpu2, disk, dns, gc, pc, *tcp]
+    sim = Simulation(sources=[src], entities=ents, end_time=Instant.from_seconds(3.0))
+    return Model(sim, [src, *ents])
+
+
+@model("scheduling")
+def m_scheduling(seed):
+    from happysimulator import JobDefinition, JobScheduler, WorkStealingPool
+    sink = Sink("sink")
+    pool = WorkStealingPool("pool", num_workers=3, downstream=sink, default_processing_time=0.01)
+    r = random.Random(seed)
+
+    def submit(self, event):
+        return [Event(time=self.now, event_type="Task", target=pool,
+                      context={"created_at": self.now,
+                               "metadata": {"processing_time": 0.08 if r.random() < 0.2 else 0.01,
+                                            "task_id": self.calls}})]
+
+    submitter = Script("submitter", submit)
+    workers = [Script(f"{n}-worker", lambda self, ev: (yield 0.03)) for n in ("extract", "transform", "load")]
+    sched = JobScheduler("cron", tick_interval=0.1)
+    sched.add_job(JobDefinition(name="extract", target=workers[0], event_type="Extract", interval=0.3, priority=10))
+    sched.add_job(JobDefinition(name="transform", target=workers[1], event_type="Transform", interval=0.3,
+                                priority=5, depends_on=["extract"]))
+    sched.add_job(JobDefinition(name="load", target=workers[2], event_type="Load", interval=0.3, priority=1,
+                                depends_on=["transform"]))
+    src = Source.poisson(rate=120.0, target=submitter, event_type="tick", stop_after=0.8, name="src")
+    ents = [submitter, pool, *pool.workers, sink, sched, *workers]
+    sim = Simulation(sources=[src], entities=ents, end_time=Instant.from_seconds(2.0))
+    ev0 = sched.start()
+    sim.schedule(ev0 if isinstance(ev0, (Event, list)) else [])
+    return Model(sim, [src, *ents], extra=lambda: [sched.get_job_state(n) for n in ("extract", "transform", "load")])
+
+
+@model("behavior-population")
+def m_behavior(seed):
+    """Mirrors examples/behavior/product_adoption.py at small scale (string-named agents, small-world graph)."""
+    from happysimulator import (BehaviorEnvironment, BoundedConfidenceModel, DemographicSegment,
+                                NormalTraitDistribution, Population, UtilityModel, influence_propagation,
+                                price_change)
+
+    def utility(choice, ctx):
+        if choice.action == "buy":
+            peers = ctx.social_context.get("peer_actions", {})
+            return 0.3 + 0.4 * ctx.traits.get("openness") + min(0.3, peers.get("buy", 0) * 0.05)
+        return 0.45 if choice.action == "wait" else 0.15
+
+    segs = [DemographicSegment(name="innovators", fraction=0.3,
+                               trait_distribution=NormalTraitDistribution(
+                                   means={"openness": 0.8, "conscientiousness": 0.5, "extraversion": 0.7,
+                                          "agreeableness": 0.5, "neuroticism": 0.3}),
+                               decision_model_factory=lambda: UtilityModel(utility_fn=utility), seed=seed),
+            DemographicSegment(name="majority", fraction=0.7,
+                               trait_distribution=NormalTraitDistribution(
+                                   means={"openness": 0.4, "conscientiousness": 0.55, "extraversion": 0.5,
+                                          "agreeableness": 0.6, "neuroticism": 0.45}),
+                               decision_model_factory=lambda: UtilityModel(utility_fn=utility), seed=seed + 1)]
+    pop = Population.from_segments(total_size=24, segments=segs, graph_type="small_world", seed=seed)
+    actions = []
+    for ag in pop.agents:
+        for act in ("buy", "wait", "switch"):
+            ag.on_action(act, lambda a, choice, event, _n=ag.name: actions.append((a.now.nanoseconds, _n,
+                                                                                    choice.action)) and None)
+    env = BehaviorEnvironment(name="market", agents=pop.agents, social_graph=pop.social_graph,
+                              influence_model=BoundedConfidenceModel(epsilon=0.4, self_weight=0.3), seed=seed)
+    sim = Simulation(start_time=Instant.Epoch, end_time=Instant.from_seconds(6.0), entities=[env, *pop.agents])
+    for t in (1.0, 2.5, 4.0):
+        sim.schedule(price_change(t, env, "GadgetX", 100.0, 100.0 - 5 * t))
+    for t in range(1, 6):
+        sim.schedule(influence_propagation(float(t) + 0.5, env, "product_sentiment"))
+    return Model(sim, [env, *pop.agents], extra=lambda: {"actions": actions, "pop": pop.stats})
+
+
+@model("microservice")
+def m_microservice(seed):
+    from happysimulator import (APIGateway, IdempotencyStore, OutboxRelay, RouteConfig, Saga, SagaStep, Server,
+                                Sidecar, TokenBucketPolicy)
+    r = random.Random(seed)
+    backends = [Server(f"backend-{i}", concurrency=2, service_time=ExponentialLatency(0.01)) for i in range(3)]
+    gw = APIGateway("gateway", routes={"/orders": RouteConfig(name="orders", backends=backends[:2],
+                                                              rate_limit_policy=TokenBucketPolicy(5, 60.0)),
+                                       "/users": RouteConfig(name="users", backends=backends[2:])},
+                    auth_failure_rate=0.1)
+    flaky = Script("flaky", lambda self, ev: (yield (0.2 if r.random() < 0.3 else 0.005)))
+    sidecar = Sidecar("sidecar", target=flaky, rate_limit_policy=TokenBucketPolicy(4, 50.0),
+                      circuit_failure_threshold=3, circuit_timeout=0.2, request_timeout=0.05, max_retries=2,
+                      retry_base_delay=0.01)
+    idem = IdempotencyStore("idem", target=backends[2], key_extractor=lambda e: e.context.get("metadata", {})
+                            .get("idem_key"), ttl=0.3, cleanup_interval=0.1)
+    sink = Sink("outbox-sink")
+    outbox = OutboxRelay("outbox", downstream=sink, poll_interval=0.05, batch_size=5)
+    steps_t = [Script(f"step-{i}", lambda self, ev: (yield 0.01)) for i in range(3)]
+    comp_t = [Script(f"comp-{i}", lambda self, ev: (yield 0.005)) for i in range(3)]
+    saga = Saga("saga", steps=[SagaStep(name=f"s{i}", action_target=steps_t[i], action_event_type="do",
+                                        compensation_target=comp_t[i], compensation_event_type="undo",
+                                        timeout=0.05) for i in range(3)])
+
+    def fan(self, event):
+        md = {"route": r.choice(["/orders", "/users"]), "idem_key": f"req-{r.randrange(10)}",
+              "request_id": self.calls}
+        outbox.write({"n": self.calls})
+        return [Event(time=self.now, event_type="Request", target=t,
+                      context={"created_at": self.now, "metadata": dict(md)}) for t in (gw, sidecar, idem, saga)]
+
+    fanout = Script("fanout", fan)
+    src = Source.poisson(rate=60.0, target=fanout, event_type="tick", stop_after=0.6, name="src")
+    ents = [fanout, gw, *backends, sidecar, flaky, idem, outbox, sink, saga, *steps_t, *comp_t]
+    sim = Simulation(sources=[src], entities=ents, end_time=Instant.from_seconds(2.0))
+    ev0 = outbox.prime_poll()
+    sim.schedule(ev0 if isinstance(ev0, (Event, list)) else [])
+    return Model(sim, [src, *ents])
